@@ -1,6 +1,6 @@
 """C01 — simple driver solves A*X=B (backward-stable residual), A untouched, for every nprocs/schedule."""
-from vlib import sweep as S, common as C
-LEVEL = "other"
+from vlib import sweep as S, common as C, factor_corr as FC
+LEVEL = "proof"
 EXPLANATION = ("Exact-arithmetic correctness of the solve sequence (shuffle conventions, NR = transpose) is proved on the "
                "model (Props/C01.lean); the floating-point residual bound |B-AX| <= gamma(3n)(Pr^T|L||U|Pc^T)|X| is decided "
                "per run by the Lean-verified exact checker (checkResidual_sound) on what p?gssv returned; A is compared "
@@ -23,4 +23,10 @@ def run(ctx):
         if res["threads"][0] != res["threads"][1]:
             ctx.violation("threads-left", "thread count %s -> %s" % res["threads"], S.replay_blob(r)); bad += 1
     S.coverage(ctx, recs)
+    # the returned X against the exact solve of the model (Model/LU.lean solveN, theorem solve_correct) on well-conditioned inputs
+    dom = S.sweep(ctx, 300 if ctx.quick() else 6000, 24, precs="ds", drivers=("gssv",), force={"dominant": True, "stype": "NC", "nrhs": 2}, seed_offset=111)
+    st, dis = FC.compare(ctx, dom, nmax=24, with_x=True)
+    ctx.coverage["exact_solve_comparison"] = st
+    for d in dis[:10]:
+        ctx.violation("solve-correspondence", "p?gssv vs exact model (factor + solveN): %s" % d.get("fields"), d)
     ctx.coverage["failures"] = bad
